@@ -135,6 +135,15 @@ CHECKS = {
              "through the layout and also on the specification's own solutions, for models with 65-513 x 2 states entry by entry.",
         note="Large models: tolerance 2^-8 (1+|v|); they are far beyond what the reference semantics can enumerate, only the relation is checked.",
         technique="TLC trace validation of algebraic relations between recorded solutions (small: plus reference semantics)", ref="§6 C11"),
+    "C04": dict(
+        text="(1) MC_Keys: the split-tree discipline of spec/Keys.tla never reuses a key and gives pairwise distinct draw keys; the "
+             "keys recorded by the guarded hooks (sim_keys in every run, per-agent draw keys in eager runs) are validated by "
+             "TraceKeys, which reuses Keys' actions: seed-ignored, carry-chain-broken, key-reuse, key-shared, draw-key. (2) Panels of "
+             "4000-8000 agents: TLC checks next-label counts per transition row, also conditional on the neighbouring agent's, the "
+             "previous and another variable's draw, against the rows of the specification with an exact-integer 6-sigma region "
+             "(zero-probability labels must not occur). (3) Same seed => identical frame, other seed => identical period 0.",
+        note="Trusted base: jax.random.split/choice. The statistical clause is an acceptance test (6 sigma, deterministic for a fixed VERIF_SEED).",
+        technique="TLC model checking of the key discipline + trace validation of hooked key events + TLC-evaluated exact-integer frequency tests", ref="§6 C04"),
 }
 REASON_PENDING = "check under construction in this round (DESIGN.md §10); not yet claimed"
 
